@@ -1,5 +1,5 @@
 CONSTANTS
- MaxIn = 3
+ MaxIn = 2
  MaxStart = 4
  MaxInit = 2
  Depth = 2
